@@ -15,7 +15,7 @@ RULE = ('statements generated from a grammar (reads inside arithmetic, every com
         'arguments, subscripts, f-strings, conditional expressions, comprehensions, walrus, lambda, assert, return, if/while/for headers; '
         'augmented assignment of every operator to OTHER names / subscripts / attributes with the attribute on the right; plain, tuple and '
         'annotated assignments to the attribute; augmented assignment of every operator to the attribute itself; two thread-safe '
-        'attributes in one statement; the documented "_, _lock = o.a" form; multi-line variants), each emitted as real source lines in a '
+        'attributes in one statement; the documented "_, _lock = o.a" form; reads through the class - type(o).a, getattr / hasattr on the class; multi-line variants), each emitted as real source lines in a '
         'generated module (the descriptor inspects its caller\'s source) and run against a FRESH class and instance; after the statement '
         'a second thread must be able to take the lock of every thread-safe attribute without blocking. Every third module is then EDITED (the same statements in another order, so every line number carries a different statement) and reloaded, and every statement is run and probed again. Leaks are keyed by the syntactic '
         'class of the statement. Every fourth case is concurrent: 2-4 real threads execute 1-3 statements each on ONE object (o.a += c, '
@@ -65,7 +65,7 @@ def gen_statement(rng):
   """returns (class label, [source lines])"""
   k = rng.randint(1, 9)
   aug = rng.choice(AUG_OPS)
-  r = rng.randrange(44)
+  r = rng.randrange(46)
   if r == 0:
     return 'plain-read', ['v = o.a']
   if r == 1:
@@ -148,6 +148,9 @@ def gen_statement(rng):
     return 'multiline-augassign-other-read-on-next-line', ['x %s (' % rng.choice(['+=', '-=']), '  o.a)']
   if r == 42:
     return 'two-attributes-read', [rng.choice(['v = o.a + o.b', 'v = (o.a, o.b)', 'v = o.a < o.b', 'o.b = o.a'])]
+  if r in (44, 45):
+    # a read THROUGH THE CLASS (documentation tools, hasattr / getattr probes, inspect.getmembers): the descriptor is asked with no instance
+    return 'class-level-read', [rng.choice(['v = type(o).a', 'v = getattr(type(o), "a")', 'v = hasattr(type(o), "b")', 'v = [type(o).a, type(o).b]'])]
   return 'delete-or-pass-through', [rng.choice(['v = getattr(o, "a")', 'setattr(o, "a", %d)' % k, 'v = o.a; w = o.a'])]
 
 
